@@ -181,6 +181,10 @@ func isFreshMap(v ssa.Value, region map[*ssa.BasicBlock]bool) bool {
 
 func (eng *Engine) callMods(fn *ssa.Function, c *ssa.CallCommon, region map[*ssa.BasicBlock]bool, m *Modset) {
 	if c.IsInvoke() {
+		if c.Method.Name() == "Write" && typeKey(c.Value.Type()) == "hash.Hash" {
+			m.ghost["hashL"] = true
+			return
+		}
 		impls := eng.implementations(c.Value.Type(), c.Method)
 		if len(impls) == 0 {
 			if !eng.externalInvokePure(c) {
